@@ -99,3 +99,14 @@ Theorem C05_source_failure_cache : forall failed_ttl hit x built_ok write_ok err
    run_do_build fn_FailoverOf_doBuild x built_ok write_ok errwrite_ok = Some (do_build_spec x built_ok write_ok errwrite_ok)).
 Proof. intros; split; [exact (tie_recently_failed _ _)|exact (tie_do_build _ _ _ _)]. Qed.
 Print Assumptions C05_source_failure_cache.
+
+From Cache Require Import TieGet.
+
+(* Failover.Get and FailoverOf.Get follow the model's single-thread path on every one of the 7680 combinations of
+   configuration and call-out outcomes: same reads, stale re-store, failure-cache hit, build (before or after the
+   return), warning, returned and published (value, error), election and release inside f.lock, key copy before a
+   background build — here: the SyncRead re-read, the failure-cache gate and the single build *)
+Theorem C05_source_get_follows_model : forall i,
+  src_obs Failover.Legacy i = Some (model_obs Failover.Legacy i) /\ src_obs Failover.Generic i = Some (model_obs Failover.Generic i).
+Proof. intros i; split; [exact (tie_get_legacy i)|exact (tie_get_generic i)]. Qed.
+Print Assumptions C05_source_get_follows_model.
